@@ -97,19 +97,22 @@ mod verif_overlap {
     #[kani::proof]
     #[kani::unwind(12)]
     #[kani::stub(<[(usize, usize)]>::sort_unstable, insertion_sort)]
+    #[kani::solver(z3)]
     pub fn accepted_layout_is_injective_full_width_2() {
         let shape: [usize; 2] = kani::any();
         let strides: [usize; 2] = kani::any();
         kani::assume(shape[0] >= 1 && shape[1] >= 1);
-        let zmax = ((shape[0] as u128 - 1) * strides[0] as u128).saturating_add((shape[1] as u128 - 1) * strides[1] as u128);
-        kani::assume(zmax <= usize::MAX as u128);
+        // no-wrap hypothesis with checked usize arithmetic
+        let zmax = (shape[0] - 1).checked_mul(strides[0]).and_then(|a| (shape[1] - 1).checked_mul(strides[1]).and_then(|b| a.checked_add(b)));
+        kani::assume(zmax.is_some());
         if !may_have_internal_overlap(shape, strides) {
             let i: [usize; 2] = kani::any();
             let j: [usize; 2] = kani::any();
             kani::assume(i[0] < shape[0] && i[1] < shape[1] && j[0] < shape[0] && j[1] < shape[1]);
             if i != j {
-                let oi = i[0] as u128 * strides[0] as u128 + i[1] as u128 * strides[1] as u128;
-                let oj = j[0] as u128 * strides[0] as u128 + j[1] as u128 * strides[1] as u128;
+                // cannot wrap: each index is < shape, so each product is <= the assumed maximum
+                let oi = i[0].wrapping_mul(strides[0]).wrapping_add(i[1].wrapping_mul(strides[1]));
+                let oj = j[0].wrapping_mul(strides[0]).wrapping_add(j[1].wrapping_mul(strides[1]));
                 assert!(oi != oj, "accepted layout aliases two indices");
                 kani::cover!(strides[0] > 1 << 33);
             }
